@@ -149,7 +149,7 @@ def judgeParse (impl : Impl) (codes : List Nat) (form : Form) (f : List Int) (nd
     if renderText form date h mi s nd frac neg oh om ts.name ≠ stripBlanks codes then ("FAIL:generator_text_differs_from_spec_render", "-")
     else if s = 60 ∧ inGrammar60 date h mi nd frac oh om then
       judgeSecond60 impl (stripBlanks codes ≠ codes) form date h mi nd frac neg oh om ts
-    else if !(inGrammar date h mi s nd frac oh om) then ("na", "-")
+    else if !(inGrammar date h mi s nd frac oh om || (form.hasOffset && inGrammarYear0 date h mi s nd frac neg oh om)) then ("na", "-")
     else match impl with
       | .ok [r] =>
         (match parseEp? r with
